@@ -28,3 +28,11 @@ package model
 //@ modifies nothing
 //@ ensures r.Shards != nil && fresh(r.Shards) && r.ReplicationFactor == n.ReplicationFactor
 //@ note trusted: deep copy of the shard map (its content is not specified here)
+
+//@ func ClusterStatus.Clone(c) (r)
+//@ trusted
+//@ modifies nothing
+//@ ensures r != nil && fresh(r) && r.Namespaces != nil && fresh(r.Namespaces) && r.ShardIdGenerator == c.ShardIdGenerator && r.ServerIdx == c.ServerIdx
+//@ ensures forall k string :: inmap(r.Namespaces, k) <==> inmap(c.Namespaces, k)
+//@ ensures forall k string :: inmap(r.Namespaces, k) ==> r.Namespaces[k].Shards != nil && fresh(r.Namespaces[k].Shards)
+//@ note trusted: deep copy (the copied shard contents are not specified here)
